@@ -109,6 +109,7 @@ def rand_desc(r):
         if d["payload"] == "other" and r.random() < 0.85:
             d["pseed"] = r.randrange(1 << 30)        # a generated unpresentable payload (lib/stanzas.unpresentable_payload)
         d["participant"] = r.choice([0, 1])
+        d["skdm"] = r.choice([0, 0, 1])           # a sender key distribution piggy-backed on the content
     elif tag == "iq":
         d["iqType"] = r.choice(["get", "set", "result", "error"])
         d["xmlns"] = r.choice(list(stanzas.XMLNS))
@@ -334,6 +335,13 @@ def _recv_once(chk, case, seq):
         pg = [n for n in sent if n.tag == "iq" and n["type"] == "result"]
         if len(pg) != 1 or pg[0]["id"] != node["id"]:
             fails.append(oracle("C07:ping-pong", "ping %s: sent back %s" % (node["id"], [str(n).replace("\n", "") for n in sent])))
+    if (d["tag"] == "message" and d.get("hasProto") and d.get("mtype") == "media" and d.get("media") == "other" and case["flags"][1] == "1"
+            and d.get("payload") != "keyDistributionOnly"):
+        # a media message of a kind the library cannot present (with or without a piggy-backed key distribution): one receipt
+        rc = [n for n in sent if n.tag == "receipt"]
+        if raised is not None or len(rc) != 1 or rc[0]["id"] != node["id"] or rc[0]["to"] != node["from"]:
+            fails.append(oracle("C07:unsupported-media-receipt", "media message of an unsupported kind%s: sent back %s%s"
+                                % (" with a key distribution" if d.get("skdm") else "", [str(n).replace("\n", "") for n in sent], " (raised %r)" % raised if raised else "")))
     if d["tag"] == "message" and d.get("hasProto") and d.get("mtype") != "media" and d.get("media", "absent") == "absent" and d.get("payload") == "other":
         rc = [n for n in sent if n.tag == "receipt"]
         if len(rc) != 1 or rc[0]["id"] != node["id"] or rc[0]["to"] != node["from"]:
